@@ -18,6 +18,7 @@ import Gleece.Generated.CliCommands
 import Gleece.Model.Cli
 import Gleece.Model.Paths
 import Gleece.Model.IR
+import Gleece.Model.Order
 namespace Gleece.Crash
 
 inductive Outcome | ok | crash
@@ -85,3 +86,20 @@ theorem generating_commands_present :
       (Gleece.Generated.cliCommands.any fun row => row.2.1 = u && row.2.2.1) = true := by decide
 
 end Gleece.Cli
+
+namespace Gleece.Order
+
+/-- **a failed write is a failed run**: in the functions that write the artifacts, `os.MkdirAll` and `os.WriteFile` are
+    each followed by an error guard that RETURNS the error (a guard that only logs would let the command report
+    success with nothing written - what the `FnContract` of `Gleece.Cli` forbids), and every generation function of
+    the entry points returns what the generators return -/
+theorem write_failures_are_returned :
+    (let evs := eventsOf "generator/routes/generator.go:GenerateRoutes"
+     guarded evs "os.MkdirAll" = true ∧ guarded evs "os.WriteFile" = true ∧ failureSwallowed evs "os.WriteFile" = false) ∧
+    (let evs := eventsOf "generator/swagen/spec_manager.go:OutputSpec"
+     guarded evs "os.MkdirAll" = true ∧ guarded evs "os.WriteFile" = true ∧ failureSwallowed evs "os.WriteFile" = false) ∧
+    (let evs := eventsOf "generator/swagen/spec_manager.go:GenerateAndOutputSpec"
+     guarded evs "GenerateSpec" = true) := by
+  decide +kernel
+
+end Gleece.Order
